@@ -100,6 +100,13 @@ def gen_cbtf(r, idx):
         a = r.standard_normal((nb, nf)) + 1j * r.standard_normal((nb, nf))
         if r.random() < 0.3:
             a = a.real.copy()
+    # the response to an enforced motion does not depend on the unit of force: the same
+    # model in a unit system where every stiffness is tiny (or huge) in absolute terms
+    c["kscale"] = 0
+    if idx % 8 in (3, 6):
+        c["kscale"] = -40 if idx % 8 == 3 else 30
+        f2 = 2.0 ** c["kscale"]
+        m, b, k = m * f2, b * f2, k * f2
     c.update(nb=nb, nq=nq, n=n, bset=bset, qset=qset, m=m, b=b, k=k, freq=freq, a=a)
     return c
 
@@ -162,6 +169,8 @@ def run_cbtf(sh, params):
             sh.count("cell:cbtf:f0")
         if not c["noq"]:
             sh.count("cell:cbtf:qq-" + ("full" if c["qqfull"] else "diag"))
+            if c["kscale"]:
+                sh.count("cell:cbtf:force-unit-" + ("tiny" if c["kscale"] < 0 else "huge"))
         sh.case(case, True, sample={"case": case, "tags": tags, "nb": c["nb"],
                                     "nq": c["nq"], "bset": c["bset"],
                                     "freq": c["freq"]})
@@ -259,6 +268,22 @@ def run_cbtf(sh, params):
                     x1, x2 = np.asarray(getattr(t1, nm)), np.asarray(getattr(t2, nm))
                     sh.check_close("cbtf-save-reuse", x1, x2,
                                    1e-13 * (np.abs(x2).max(axis=0) + 1e-300), case, tags)
+                # the caller's frequency array updated in place between two calls that
+                # share `save`: the answer belongs to the frequencies as they are now
+                if idx % 8 == 1:
+                    f_keep = freq.copy()
+                    freq *= 1.7
+                    if freq.size > 1:
+                        freq[0] += 0.5
+                    t3 = cb.cbtf(m, b, k, a3, freq, bset, save)
+                    t4 = cb.cbtf(m, b, k, a3, freq.copy(), bset)
+                    sh.count("cell:cbtf:save-freq-updated-in-place")
+                    for nm in ("a", "v", "d", "frc"):
+                        x1, x2 = np.asarray(getattr(t3, nm)), np.asarray(getattr(t4, nm))
+                        sh.check_close("cbtf-save-freq-inplace", x1, x2,
+                                       1e-13 * (np.abs(x2).max(axis=0) + 1e-300), case,
+                                       tags)
+                    freq[:] = f_keep
             except Exception as e:
                 sh.violation("exception:cbtf-save", case, {"exc": repr(e)[:300]}, tags)
         # documented input errors
